@@ -118,6 +118,7 @@ fn caught(s: str) -> str { try { throw(s); "no" } catch e { e.message } }
 fn checked(x: int) -> int { if x > 10 { throw("too big"); } x * 2 }
 fn ret_try(a: int) -> int { counter = counter + 1; try { return checked(a); } catch e { return 0 - 1; } }
 fn ret_try_loop(a: int) -> int { try { try { for i in 0..3 { return checked(a + i); } } catch e { throw("again"); } } catch f { return 0 - 2; } 0 }
+fn early(x: int) -> int { let y = 100 + if x > 0 { return x; } else { 1 }; y }
 fn nested_call(a: int, b: int) -> int { sub(b, a) * 2 + enc3(a, b, 0) }
 fn fact(n: int) -> int { if n <= 1 { 1 } else { n * fact(n - 1) } }
 fn sing(c: $Cfg, a: int, b: int) -> int { c.base + a * 10 + b }
@@ -236,7 +237,8 @@ def _partial(a, g):
 
 
 # name -> (param types, return kind tag or None for null, reference, flags)
-# flags: "fails" = may fail; "v10" = returns from inside try (dead core keeps a handler: V10, C11)
+# flags: "fails" = may fail; "v10" = returns from inside try (dead core keeps a handler: V10, C11);
+# "v8" = returns while an operand is pending (dead core keeps the operand: V8, C11) — the residue is not judged
 FUNCS = {
     "sub": (["int", "int"], "int", lambda a, g: ok(I(a[0][1] - a[1][1])), ()),
     "enc3": (["dig", "dig", "dig"], "int", lambda a, g: ok(I(a[0][1] * 100 + a[1][1] * 10 + a[2][1])), ()),
@@ -272,6 +274,9 @@ FUNCS = {
     # the operand of `return` is still inside the try: its exception is caught by the function's own handler
     "ret_try": (["dig2"], "int", _ret_try, ("v10",)),
     "ret_try_loop": (["dig2"], "int", lambda a, g: ok(I(a[0][1] * 2)) if a[0][1] <= 10 else ok(I(-2)), ("v10",)),
+    # `return` while an operand of the enclosing `+` is pending (V8: the operand stays on the dead core's stack);
+    # the host must still be handed the value of the `return`, which is on top
+    "early": (["int"], "int", lambda a, g: ok(a[0]) if a[0][1] > 0 else ok(I(101)), ("v8",)),
     "nested_call": (["dig", "dig"], "int",
                     lambda a, g: ok(I((a[1][1] - a[0][1]) * 2 + a[0][1] * 100 + a[1][1] * 10)), ()),
     "fact": (["dig"], "int", _fact, ()),
